@@ -46,7 +46,8 @@ CHECKS = {
              "relative tolerance 1e-4 (neighbour relation) / 1e-5 (energy). For PSK of arbitrary order M the geometry is proved over the reals "
              "(Mod/PSKGeomR.v: circular neighbours strictly nearest, equally near, points distinct; Coq Reals axioms "
              "ClassicalDedekindReals.sig_not_dec, sig_forall_dec, FunctionalExtensionality.functional_extensionality_dep for those two theorems only); "
-             "for QAM / PAM grids the Gray-neighbour and energy clauses are decided per published table (all orders of the catalogue). "
+             "for square QAM grids of every order the nearest points are proved to be the four axis neighbours and their Gray labels to differ in one "
+             "bit (Mod/GridGeom.v, closed); the unit-energy clause and the PAM tables are decided per published table (all orders of the catalogue). "
              "All other theorems closed under the global context.",
         technique="Coq proof (bitwise induction on N) + kernel-evaluated verified checkers on published tables + model/implementation correspondence by vm_compute"),
     "C15": dict(
